@@ -343,3 +343,13 @@ def square_psd(h, flatL, flatR):
     pres = [set(k[i] for k in h.blocks) for i in range(h.rank)]
     keys = [k for k in D.allowed_keys(h.sym, h.legs, h.n) if all(k[i] in pres[i] for i in range(h.rank))]
     return from_dense(h.sym, h.legs, h.n, arr, h.dtype, keys=keys)
+
+
+def similarity_scale(rng, h, k, factors=(1 / 32, 1.0, 1.0, 32.0)):
+    """T h T^-1 with a random diagonal T (entries from ``factors``) on a tensor over legs (L_1..L_k, conj L_1..L_k):
+    same spectrum and block support, eigenvector basis with condition number up to max/min of the factors."""
+    dims = [l.dim for l in h.legs]
+    L = int(np.prod(dims[:k], dtype=np.int64))
+    t = np.array([rng.choice(factors) for _ in range(L)])
+    M = h.dense().reshape(L, L) * (t[:, None] / t[None, :])
+    return from_dense(h.sym, h.legs, h.n, M.reshape(dims), h.dtype, keys=sorted(h.blocks))
